@@ -326,6 +326,9 @@ func validate(r *telemetry.Report, cfg *tconfig.Config) error {
 	// TODO: We can probably keep known programs and counters even when a report
 	// includes something that has been removed from the latest config.
 	for _, p := range r.Programs {
+		if p == nil {
+			return fmt.Errorf("missing program report")
+		}
 		if !cfg.HasGOARCH(p.GOARCH) ||
 			!cfg.HasGOOS(p.GOOS) ||
 			!cfg.HasGoVersion(p.GoVersion) ||
